@@ -133,6 +133,17 @@ Theorem C18_backward_euler_linear_in_data :
 Proof. exact backward_euler_difference. Qed.
 Print Assumptions C18_backward_euler_linear_in_data.
 
+(* backward Euler returns on every time grid with at least two levels whenever every assembled system has the size of the
+   initial condition and the solver returns vectors of that size *)
+Theorem C18_backward_euler_defined :
+  forall (P I : Type) (solver : nat -> qm -> qv -> sret I) (form : P -> Qc -> qm * qv * qv) (Q : quirks)
+         (p : P) (t0 t1 : Qc) (rest : qv),
+  (forall s, wf_sys (length (fic P form p t0)) (fA P form p s) (fbn P form p s (length (fic P form p t0))) = true) ->
+  (forall k M r, length r = length (fic P form p t0) -> length (sret_sol (solver k M r)) = length (fic P form p t0)) ->
+  exists levels info, td_solve P I solver form Q MBwd (Some p) (t0 :: t1 :: rest) = Ok (levels, info).
+Proof. exact backward_euler_defined. Qed.
+Print Assumptions C18_backward_euler_defined.
+
 (* the assembled implicit operator applied to x is x - dt A x; the right-hand side is u + dt b *)
 Theorem C18_backward_system :
   forall (A : qm) (b u : qv) (dt : Qc) (x : qv), wf_sys (length u) A b = true -> length x = length u ->
@@ -411,6 +422,25 @@ Theorem C18_pipeline_steady :
 Proof. exact ss_pipeline. Qed.
 Print Assumptions C18_pipeline_steady.
 
+(* the PDE-based model is affine in the parameter when the parameter enters only through source and initial condition
+   (forward Euler, equal grids, final time, no observation map, at least two nodes): forward(p1) - forward(p2) is the forward
+   value of the difference problem -- what a constant Jacobian of such a model has to reproduce *)
+Theorem C18_forward_pipeline_linear_in_data :
+  forall (P Pd I : Type) (solver : nat -> qm -> qv -> sret I) (form : P -> Qc -> qm * qv * qv)
+         (formd : Pd -> Qc -> qm * qv * qv) (Q : quirks) (interp2 : qv -> qv -> list qv -> qv -> qv -> res qm) (G : grids)
+         (times : qv) (T : Qc) (p1 p2 : P) (pd : Pd) (prev1 prev2 : option P) (prevd : option Pd) (o1 o2 : qv),
+  g_eq G = true -> last_opt times = Some T ->
+  (forall t n, fA P form p1 t = fA P form p2 t /\ fA Pd formd pd t = fA P form p1 t /\
+               fbn Pd formd pd t n = qvsub (fbn P form p1 t n) (fbn P form p2 t n) /\
+               fic Pd formd pd t = qvsub (fic P form p1 t) (fic P form p2 t)) ->
+  length (fic P form p1 (nth 0 times 0)) = length (fic P form p2 (nth 0 times 0)) ->
+  td_forward P I solver form Q None interp2 G MFwd times [T] prev1 p1 = Ok (A1 o1) ->
+  td_forward P I solver form Q None interp2 G MFwd times [T] prev2 p2 = Ok (A1 o2) ->
+  (2 <= length o1)%nat -> length o1 = length o2 ->
+  td_forward Pd I solver formd Q None interp2 G MFwd times [T] prevd pd = Ok (A1 (qvsub o1 o2)).
+Proof. exact forward_pipeline_difference. Qed.
+Print Assumptions C18_forward_pipeline_linear_in_data.
+
 (* PDEModel._gradient_func: the PDE's own gradient_wrt_parameter if it has one, else direction @ jacobian_wrt_parameter,
    else refused; and direction @ J is the vector-Jacobian product *)
 Theorem C18_gradient_dispatch :
@@ -466,6 +496,20 @@ Example C18_example_backward_hypotheses :
     be_law_on_calls qv Z ex1_solver ex1_form p times levels /\
     be_invertible qv ex1_form p times (length (nth 0 levels [])).
 Proof. exact ex_be_hypotheses. Qed.
+
+(* non-vacuity of the hypotheses of C18_forward_pipeline_linear_in_data *)
+Example C18_example_pipeline_hypotheses :
+  let times := [qc (0 # 1); qc (1 # 4); qc (3 # 4)] in
+  let p1 := [qc (4 # 1); qc (8 # 1)] in let p2 := [qc (1 # 1); qc (-2 # 1)] in
+  let G := init_grids None None in
+  (forall t n, fA qv ex_form p1 t = fA qv ex_form p2 t /\ fA qv exd_form (qvsub p1 p2) t = fA qv ex_form p1 t /\
+               fbn qv exd_form (qvsub p1 p2) t n = qvsub (fbn qv ex_form p1 t n) (fbn qv ex_form p2 t n) /\
+               fic qv exd_form (qvsub p1 p2) t = qvsub (fic qv ex_form p1 t) (fic qv ex_form p2 t)) /\
+  g_eq G = true /\ last_opt times = Some (qc (3 # 4)) /\
+  exists o1 o2, td_forward qv Z ex_solver ex_form quirks_fixed None const_interp2 G MFwd times [qc (3 # 4)] None p1 = Ok (A1 o1) /\
+                td_forward qv Z ex_solver ex_form quirks_fixed None const_interp2 G MFwd times [qc (3 # 4)] None p2 = Ok (A1 o2) /\
+                (2 <= length o1)%nat /\ length o1 = length o2.
+Proof. exact ex_pipeline_hypotheses. Qed.
 
 (* non-vacuity: a concrete 2-node problem with time-dependent source on a non-uniform grid; forward Euler levels
    computed; backward Euler with an exact 2x2 solver returning (x, call number): the solver law holds on every call *)
